@@ -185,6 +185,7 @@ pub fn check_script(s: &Script, ctx: &Ctx, st: &mut Stats) -> Result<(), String>
                 auth: Auth::ValidExpected,
                 fp: if s.fingerprint { FpMode::Valid } else { FpMode::Absent },
                 dup: false,
+                twist: 0,
             }));
             if !judge(f, i, "indication-from-server", st)? {
                 return Ok(());
@@ -250,8 +251,8 @@ pub fn check_script(s: &Script, ctx: &Ctx, st: &mut Stats) -> Result<(), String>
             extra: 1,
             auth,
             fp: fp.clone(),
-            dup: false,
-        };
+            dup: false, twist: 0,
+            };
         let beh = match (&ex.beh, acceptable) {
             // an RFC server cannot authenticate an answer to a request it could not key
             (Beh::Natural, false) | (Beh::Stale { .. }, false) | (Beh::OtherError { .. }, false) | (Beh::SuccessWrongKey, false) | (Beh::SuccessOtherAlg, false)
